@@ -95,16 +95,16 @@ theorem stepConsumer_map (C : Consumer σ ρ) (f : Nat → Nat) (gσ : σ → σ
     cases c.hist[c.taken]? with
     | none =>
       simp only [Option.map_none]
-      cases c.closed
-      · rfl
-      · simp only [if_true, Option.map_some, ConsPc.mapErr, h.close]
-    | some r => simp only [Option.map_some, ConsPc.mapErr]
+      by_cases hcl : c.closed = true
+      · simp [hcl, h.close, Config.mapErr, ConsPc.mapErr]
+      · simp [hcl]
+    | some r => rfl
   | got s r =>
     simp only [ConsPc.mapErr]
     rw [h.recv]
     cases C.onRecv s r with
-    | next s' cn => simp only [Step.map, Option.map_some, ConsPc.mapErr]
-    | ret x => simp only [Step.map, Option.map_some, ConsPc.mapErr]
+    | next s' cn => rfl
+    | ret x => rfl
   | returned x b => rfl
 
 theorem step_map (C : Consumer σ ρ) (f : Nat → Nat) (gσ : σ → σ) (gρ : ρ → ρ)
